@@ -106,7 +106,7 @@ def kind_table_name(k):
     return n.replace("UserType_", "ut:")
 
 
-def observe(calls):
+def observe(calls, order_seed=0):
     import contextlib
     import io
     from dagrt.data import infer_kinds
@@ -116,10 +116,18 @@ def observe(calls):
     cb, _ = progs.replay_calls("p0", calls)
     code = DAGCode.from_phases_list([cb.as_execution_phase("p0")], "p0")
     freg = register_ode_rhs(base_function_registry, "u", identifier="<func>f")
-    case = {"table": [], "stores": [], "assigned": [], "err": "", "calls": calls}
+    case = {"table": [], "stores": [], "assigned": [], "err": "", "calls": calls, "order_seed": order_seed}
+    icode = code
+    if order_seed:
+        # present the statements to kind inference in another order (phases hold them as unordered sets)
+        import random as _r
+        from dagrt.language import ExecutionPhase
+        stmts = list(cb.statements)
+        _r.Random(order_seed).shuffle(stmts)
+        icode = DAGCode({"p0": ExecutionPhase("p0", "p0", stmts)}, "p0")
     try:
         with contextlib.redirect_stdout(io.StringIO()):
-            tbl = infer_kinds(code, function_registry=freg)
+            tbl = infer_kinds(icode, function_registry=freg)
     except Exception as e:
         case["err"] = "inference:" + type(e).__name__
         return case
@@ -161,6 +169,18 @@ def run(chk):
     programs += [gen.random_program(rng, alpha, rng.randint(4, 10), maxnest=0, typed=INPUTS)
                  for _ in range(300 if chk.quick else 6000)]
     cases = [observe(calls) for calls in programs]
+    # widening family: a variable whose kind is widened (real -> complex, scalar -> array, scalar -> user type)
+    # with a copy chain hanging off it, presented to inference in many statement orders
+    x0 = assign("x", P(V("<dt>"), C(2)))
+    chain = [assign("x1", V("x")), assign("x2", V("x1")), assign("x3", P(V("x2"), V("<dt>")))]
+    wid = [[assign("c", P(V("<dt>"), ["cx", 0, 1])), assign("x", S(V("x"), V("c")))],
+           [assign("ra", CALL("<builtin>array", [C(3)])), assign("ra", P(V("i"), V("<dt>")), sub=[V("i")], loops=[["i", C(0), C(3)]]),
+            assign("x", P(V("x"), V("ra")))],
+           [acall([U], "<func>f", [V("<t>"), V(U)]), assign("x", P(V("x"), V(U)))]]
+    for w in wid:
+        prog = [x0] + w + chain
+        for sd in range(1, 25 if chk.quick else 121):
+            cases.append(observe(prog, order_seed=sd))
     chk.stage("observe")
     judged = [c for c in cases if not c["err"].startswith("inference")]
     tl = [{k: c[k] for k in ("table", "stores", "assigned")} for c in judged]
@@ -174,7 +194,10 @@ def run(chk):
             var, cls = c["stores"][pos - 1]
             kind = dict(map(tuple, c["table"])).get(var, "")
             stmt = [progs.show_call(x) for x in c["calls"] if x.get("lhs") == var or (isinstance(x.get("lhs"), list) and var in x["lhs"])]
-            sig = "C09:KindAdmitsValue:kind=%s:value=%s:%s" % (kind, cls, _construct(c, var))
+            classes = {cl for v2, cl in c["stores"] if v2 == var}
+            pred = "variable-assigned-values-of-two-classes" if len(classes) > 1 and any(
+                True for cl in classes if cl != cls) and _admitted_somewhere(kind, classes) else _construct(c, var)
+            sig = "C09:KindAdmitsValue:kind=%s:value=%s:%s" % (kind, cls, pred)
             what = "variable %s has kind %s but the interpreter stored a %s value; assignments: %s" % (var, kind, cls, stmt)
         else:
             missing = [v for v in c["assigned"] if dict(map(tuple, c["table"])).get(v, "") in ("", "None")]
@@ -183,7 +206,7 @@ def run(chk):
         if (sig, t[1]) in seen:
             continue
         seen.add((sig, t[1]))
-        chk.violation(sig, what, {"calls": c["calls"]})
+        chk.violation(sig, what, {"calls": c["calls"], "order_seed": c.get("order_seed", 0)})
     chk.coverage.update({
         "evaluations": len(cases),
         "distinct_nontrivial": sum(1 for c in judged if len(c["stores"]) >= 2),
@@ -202,6 +225,13 @@ def run(chk):
                         "Admits is lenient: ints and bools are admitted by real scalars, real values by complex kinds"]
 
 
+def _admitted_somewhere(kind, classes):
+    """The kind fits at least one of the classes stored in the variable (so it is the join of several uses)."""
+    table = {"Boolean": {"bool"}, "Integer": {"int", "bool"}, "Scalar_r": {"int", "real", "bool"},
+             "Scalar_c": {"int", "real", "complex", "bool"}, "Array_r": {"rarray"}, "Array_c": {"rarray", "carray"}}
+    return bool(table.get(kind, {kind}) & set(classes))
+
+
 def _construct(case, var):
     """Which construct assigns var (diagnosis for signatures)."""
     for x in case["calls"]:
@@ -218,7 +248,7 @@ def _construct(case, var):
 
 
 def replay(chk, rep):
-    c = observe(rep["case"]["calls"])
+    c = observe(rep["case"]["calls"], rep["case"].get("order_seed", 0))
     print(progs.show_prog(c["calls"]))
     print("table :", c["table"])
     print("stores:", c["stores"], c["err"])
